@@ -421,3 +421,48 @@ Example C14_nonvacuous_getg :
   getg_of 16 (stack_text 1000160 []) = Some 100016%Z /\ getg_of 16 (stack_text 1000161 []) = Some 100016%Z /\
   getg_of 10 (stack_text 5 []) = None.
 Proof. vm_compute. auto. Qed.
+
+(* ---- restored for EVERY argument and EVERY body: bodies that do not nest properly (Model/CtxRoot.v) ------------------- *)
+From PcoreV Require Import Model.CtxRoot Proofs.CtxRootProofs.
+
+(* px.DoWithContext(a, body) - the functions dwc_enter / run_dact of the interleaving machine - leaves the goroutine's
+   table entry EXACTLY as it found it (saved context current again / table without a context / no table), whatever
+   the argument is - the context that is current at the call (ACur), a new one (ANew), the one of an enclosing
+   DoWithContext (AOuter k) - and whatever the body does short of threadlocal.Cleanup: pcore.RootContext() (a new table
+   and another context left current), threadlocal.Init / Set / Delete, nested DoWithContext / pcore.Do / Try /
+   DoWithParent / TryWithParent with any argument and any such body, and whether the body returns or panics (the state
+   after `eval` is the state after the deferred function has run; r_pan tells which of the two).  `one`: the state is
+   the one of a goroutine, a single table entry. *)
+Theorem C14_restored_any_argument_any_body :
+  forall (a : rarg) (body : list rop) (st : rst),
+    one (r_tbl st) -> r_tbl (eval (RDwc a body) st) = r_tbl st.
+Proof. exact dwc_restores_any. Qed.
+Print Assumptions C14_restored_any_argument_any_body.
+
+(* ... and inside, at the first statement of the body, the argument is the current context, for every entry found
+   (and threadlocal.Set does not panic) *)
+Theorem C14_established_any_argument :
+  forall (c : addr) (e : option table),
+    tl_get 0 (fst (fst (dwc_enter 0 c [e]))) = Some c /\ snd (dwc_enter 0 c [e]) = true.
+Proof. exact dwc_establishes. Qed.
+Print Assumptions C14_established_any_argument.
+
+(* A goroutine whose top-level statements are DoWithContext / pcore.Do / pcore.Try / DoWithParent / TryWithParent calls
+   (RDwc, RTry [RDwc]) and observations ends with the entry it started with, whatever the bodies did: nothing a body
+   leaves current reaches the code after the call or a later, unrelated scope. *)
+Theorem C14_scopes_restore :
+  forall (ps : list rop) (st : rst),
+    forallb is_scope ps = true -> one (r_tbl st) -> r_tbl (eval_list ps st) = r_tbl st.
+Proof. exact scopes_restore. Qed.
+Print Assumptions C14_scopes_restore.
+
+(* non-vacuity: in the goroutine of px.Fork (context 0 current), DoWithContext(the current context){ RootContext() }:
+   the body sees context 0, then the root context 1; afterwards context 0 is current again; the same when the body
+   panics below a recover point, and in a plain goroutine the table made for the call is gone *)
+Example C14_nonvacuous_root :
+  rrun (Some (Some 0)) [RObs; RDwc ACur [RObs; RRoot; RObs]; RObs; RTry [RDwc ACur [RRoot; RPanic]]; RObs] =
+    ([REObs (Some (Some 0)); REObs (Some (Some 0)); REObs (Some (Some 1)); REObs (Some (Some 0));
+      REPanic false; REObs (Some (Some 0))], Some (Some 0)) /\
+  rrun None [RDwc ANew [RObs; RInit; RObs; RSetNew]; RObs] =
+    ([REObs (Some (Some 1)); REObs (Some None); REObs None], None).
+Proof. vm_compute. auto. Qed.
